@@ -393,3 +393,25 @@ Proof.
   pose proof (f_equal (hd (cR c0)) EL) as E0. pose proof (f_equal (@tl _) EL) as E1. cbn [hd tl] in E0, E1.
   rewrite E0, E1. reflexivity.
 Qed.
+
+(* the protocol's whole unitary is a symmetric SU(2) element S(x,y,z) = [[x + i y, i z],[i z, x - i y]] with real x, y, z — for
+   every parity, every length, all reduced phases, every angle: U11 = conj U00, U01 = U10 is purely imaginary (the polynomial Q
+   of a symmetric sequence is real), so <+|U|+> = x + i z determines the off-diagonal entries once <0|U|0> = x + i y is known *)
+Theorem sym_unitary_form odd r0 rt phi0 rest theta :
+  sym_full_q odd (r0 :: rt) = Some (phi0 :: rest) ->
+  exists x y z : R, Ux_at phi0 rest theta = symS (x, y, z).
+Proof.
+  intros Hfull.
+  assert (Has : cos theta * cos theta + sin theta * sin theta = 1).
+  { pose proof (sin2_cos2 theta) as H. unfold Rsqr in H. lra. }
+  assert (HF : List.Forall unitcs (map csr rt)).
+  { apply Forall_forall. intros x Hx. apply in_map_iff in Hx. destruct Hx as [q [<- _]]. apply unit_csr. }
+  pose proof (sym_product_is_forward_state (cos theta) (sin theta) Has odd (csr r0) (map csr rt) (unit_csr r0) HF) as HS.
+  pose proof (full_layout_cs odd r0 rt (phi0 :: rest) Hfull) as EL. cbn [map] in EL.
+  unfold Ulist in HS.
+  destruct (full_cs odd (csr r0) (map csr rt)) as [|c0 l] eqn:Ef; [discriminate EL|].
+  cbn [map] in EL.
+  pose proof (f_equal (hd (cR c0)) EL) as E0. pose proof (f_equal (@tl _) EL) as E1. cbn [hd tl] in E0, E1.
+  destruct (fwd RR (ct2 (cos theta) (sin theta)) (r_init (cos theta) (sin theta) odd) (map dblcs (csr r0 :: map csr rt))) as [[x y] z].
+  exists x, y, z. unfold Ux_at. rewrite E0, E1. exact HS.
+Qed.
